@@ -188,6 +188,8 @@ func (r *resource) Event(event string, payload interface{}) {
 	switch event {
 	case "change":
 		panic("res: use ChangeEvent to send change events")
+	case "create":
+		panic("res: use CreateEvent to send create events")
 	case "delete":
 		panic(`res: "delete" is a reserved event name`)
 	case "add":
